@@ -1,8 +1,5 @@
 package main
 
-func tryReplay(o CheckOpts, ob *Obligation) (string, bool) { return "", false }
-func runReplayFile(path string) int                        { return 0 }
-func runSelftest(args []string) int                        { return 0 }
 func (eng *Engine) runCensus(c *Census) ExtraCheck {
 	return ExtraCheck{Name: "census:" + c.Callee, Ok: true}
 }
